@@ -92,6 +92,7 @@ def configs(tier):
     for dur in (2, '3s', None):
         for init in (ABSENT, 'iv'):
             out.append(dict(kind='inputexp', dur=dur, init=init))
+    out += [dict(c, sib=1) for c in out if c['kind'] != 'pingpong']
     return out
 
 
@@ -336,7 +337,16 @@ def build(cfg, probe):
             rv = False
         kw[f'cond_{e}'] = _logger('cond', e, rv)
     kw['on_notrans'] = edzed.Event(probe, 'notrans')
+    if cfg.get('sib'):
+        # idle instances of the same class with other durations, created before and after
+        sib = {'gen': lambda n, d: cls(n, t_b=d), 'pingpong': None,
+               'timer': lambda n, d: cls(n, t_on=d),
+               'inputexp': lambda n, d: cls(n, duration=d, expired='X')}.get(k)
+        if sib is not None:
+            sib('sib_before', 77)
     blk = cls('fsm', **kw)
+    if cfg.get('sib') and sib is not None:
+        sib('sib_after', 99)
     return blk, ref
 
 
